@@ -44,7 +44,8 @@ func TestVerifN2HGet(t *testing.T) {
 	for i := range all {
 		all[i] = byte(i)
 	}
-	fixedBodies := [][]byte{[]byte("hello"), nil, []byte("a b&c=d#e?f/g%h+i"), all, []byte("%s%d%%"), []byte("ünï©ødé\n\r\t\x00")}
+	fixedBodies := [][]byte{[]byte("hello"), nil, []byte("a b&c=d#e?f/g%h+i"), all, []byte("%s%d%%"), []byte("ünï©ødé\n\r\t\x00"),
+		[]byte("line\n"), []byte("line\r\n"), []byte(" padded "), []byte("\n")}
 	type tc struct {
 		tmpl string
 		body []byte
@@ -59,7 +60,7 @@ func TestVerifN2HGet(t *testing.T) {
 		cases = append(cases, tc{tm, []byte("hello")}, tc{tm, []byte("a b")})
 	}
 	for i := 0; i < 256; i++ { // every byte value on its own, between two letters
-		cases = append(cases, tc{clean[i%len(clean)], []byte{'<', byte(i), '>'}})
+		cases = append(cases, tc{clean[i%len(clean)], []byte{'<', byte(i), '>'}}, tc{clean[(i/8)%len(clean)], []byte{byte(i)}})
 	}
 	for i := 0; i < n; i++ {
 		tm := clean[r.Intn(len(clean))]
